@@ -80,13 +80,13 @@ def decode_stub(I, f, locs, node, frame):
     return marker
 
 
-def eval_facade(prog, method, fspec, setname, kwmode, check_condition="fork", transport="sgio", sa=None):
+def eval_facade(prog, method, fspec, setname, kwmode, check_condition="fork", transport="sgio", sa=None, other_error="never"):
     I = prog.I
     scsi_cls = prog.cls(SCSI_MOD, "SCSI")
     entry = refcdb.CDB[fspec["cls"]]
     doms = dict(entry["args"])
     enum = prog.module(ENUM_MOD).env[setname]
-    si = StandIn(prog, check_condition=check_condition).install()
+    si = StandIn(prog, check_condition=check_condition, other_sgio_error=other_error).install()
     I.stubs["*.unmarshall_datain"] = decode_stub
     out = []
     try:
